@@ -12,9 +12,9 @@ git apply .seed/patch.diff || { echo "PATCH-DOES-NOT-APPLY"; exit 3; }
 suite=ok
 for m in . fuzz tests; do (cd $m && go test -vet=off -count=1 ./... >/tmp/confirm-$id-suite-$$.log 2>&1) || suite=FAIL; done
 cp .seed/demo_test.go ${lower}_demo_test.go
-go test -vet=off -count=1 -run 'C[0-9][0-9]|TestF[0-9]|TestG[0-9]|TestH[0-9]|TestI[0-9]|TestJ[0-9]|TestK[0-9]|TestL[0-9]|TestM[0-9]|TestN[0-9]|TestO[0-9]|TestP[0-9]|TestQ[0-9]|TestR[0-9]|TestS[0-9]|TestT[0-9]' . >/tmp/confirm-$id-with.log 2>&1; with=$?
+go test -vet=off -count=1 -run 'C[0-9][0-9]|TestF[0-9]|TestG[0-9]|TestH[0-9]|TestI[0-9]|TestJ[0-9]|TestK[0-9]|TestL[0-9]|TestM[0-9]|TestN[0-9]|TestO[0-9]|TestP[0-9]|TestQ[0-9]|TestR[0-9]|TestS[0-9]|TestT[0-9]|TestU[0-9]' . >/tmp/confirm-$id-with.log 2>&1; with=$?
 git checkout -q -- .
-go test -vet=off -count=1 -run 'C[0-9][0-9]|TestF[0-9]|TestG[0-9]|TestH[0-9]|TestI[0-9]|TestJ[0-9]|TestK[0-9]|TestL[0-9]|TestM[0-9]|TestN[0-9]|TestO[0-9]|TestP[0-9]|TestQ[0-9]|TestR[0-9]|TestS[0-9]|TestT[0-9]' . >/tmp/confirm-$id-without.log 2>&1; without=$?
+go test -vet=off -count=1 -run 'C[0-9][0-9]|TestF[0-9]|TestG[0-9]|TestH[0-9]|TestI[0-9]|TestJ[0-9]|TestK[0-9]|TestL[0-9]|TestM[0-9]|TestN[0-9]|TestO[0-9]|TestP[0-9]|TestQ[0-9]|TestR[0-9]|TestS[0-9]|TestT[0-9]|TestU[0-9]' . >/tmp/confirm-$id-without.log 2>&1; without=$?
 rm -f ${lower}_demo_test.go
 echo "$id suite_with_patch=$suite demo_with_patch_rc=$with demo_clean_rc=$without"
 if [ "$suite" = ok ] && [ $with -ne 0 ] && [ $without -eq 0 ]; then
